@@ -936,6 +936,17 @@ class Arr:
             index = type(self)(_obj(index), dtype="int64")
         return self[(slice(None),) * dim + (index,)]
 
+    def narrow(self, dim, start, length):
+        """x.narrow(dim, start, length) == x[..., start:start+length, ...] with torch's range check"""
+        dim = dim % self.a.ndim
+        start, length = int(start), int(length)
+        n = self.a.shape[dim]
+        if start < 0:
+            start += n
+        if length < 0 or start < 0 or start + length > n:
+            raise RuntimeError("start (%d) + length (%d) exceeds dimension size (%d)." % (start, length, n))
+        return self[(slice(None),) * dim + (slice(start, start + length),)]
+
     def masked_select(self, mask):
         """1-D tensor of the elements where the (broadcast) mask is true; symbolic mask entries are decided by forking"""
         m = mask.a if isinstance(mask, Arr) else _obj(mask)
@@ -1478,6 +1489,23 @@ def stack(xs, dim=0, axis=None, cls=None):
     def bw(g):
         return [np.take(g, i, axis=ax) for i in range(len(xs))]
     return xs[0]._mk(r, xs, bw)
+
+
+_PROMO = ["bool", "uint8", "int8", "int16", "int32", "int64", "float16", "bfloat16", "float32", "float64"]
+
+
+def promote_types(a, b):
+    """torch.promote_types on the dtype tags (the cases that occur here: equal types, int with int, anything with a float)"""
+    a, b = _dtype_name(a), _dtype_name(b)
+    if a == b:
+        return a
+    if {a, b} == {"uint8", "int8"}:
+        return "int16"
+    if {a, b} == {"float16", "bfloat16"}:
+        return "float32"
+    if a not in _PROMO or b not in _PROMO:
+        raise Inconclusive("promote_types(%s, %s) is not modelled" % (a, b))
+    return _PROMO[builtins.max(_PROMO.index(a), _PROMO.index(b))]
 
 
 def meshgrid(*xs, indexing=None):
